@@ -290,6 +290,21 @@ def main():
             # claimed in this run and the behavioural tie (exhaustive token sequences, all code points) decides alone
             failed = {'SlacProps.C01Source' if l.startswith('Grammar') else 'SlacProps.C03Source' for l in translation.split('\n') if 'unrecognised' in l}
             cfg['modules'] = [m for m in cfg['modules'] if m not in (failed or {'SlacProps.C01Source', 'SlacProps.C03Source'})]
+    # second translator (tools/rs2lean.py): whole FUNCTIONS of validate.rs / optimizer.rs / environment.rs / value.rs re-translated into
+    # SlacModel/Generated/Src*.lean; `srcgen` maps a generated file to the `…Source` module that proves the hand-written model equal to it
+    if cfg.get('srcgen'):
+        cfg = dict(cfg, modules=list(cfg['modules']))
+        with Lock('lake'):
+            r = subprocess.run([sys.executable, os.path.join(VERIF, 'tools', 'rs2lean.py')], stdout=subprocess.PIPE, stderr=subprocess.STDOUT, timeout=120)
+        t2 = r.stdout.decode(errors='replace').strip()[:800]
+        translation = (translation + '\n' if translation else '') + t2
+        done = {l.split(':')[0] for l in t2.split('\n') if re.match(r'^\w+: (written|unchanged)$', l)}
+        for gen_file, module in cfg['srcgen'].items():
+            if gen_file in done:
+                if module not in cfg['modules']: cfg['modules'].append(module)
+            else:
+                # source shape outside the translator's subset: NOT a violation; that `…Source` module is not claimed in this run
+                cfg['modules'] = [m for m in cfg['modules'] if m != module]
     ok, out = lake_build(['driver'] + cfg['modules'])
     proof_ok = ok
     if not ok:
